@@ -9,6 +9,40 @@ import Golib.Model.C14Arena
 
 namespace Golib.C14
 
+/-- First occurrences by key under the key type's `==` (`E` need not be reflexive: a key that is
+not equal to itself — NaN — is kept every time it occurs). -/
+def firstOccE (E : ElemEq) (key : Int → Int) : List Int → List Int → List Int
+  | _, [] => []
+  | seen, v :: vs =>
+    if memE E seen (key v) then firstOccE E key seen vs else v :: firstOccE E key (key v :: seen) vs
+
+theorem selSpec_uniqueE (E : ElemEq) (key : Int → Int) (seen : List Int) (l : List Int) :
+    selSpec (uniqueSelE E key) (seen, seen.length) l = firstOccE E key seen l := by
+  induction l generalizing seen with
+  | nil => rfl
+  | cons v vs ih =>
+    simp only [selSpec, uniqueSelE, mapInsertE, firstOccE]
+    by_cases hc : memE E seen (key v) = true
+    · simp only [hc, if_true, Nat.lt_irrefl, if_false, Bool.false_eq_true]
+      exact ih seen
+    · simp only [hc, Bool.false_eq_true, if_false, List.length_cons, Nat.lt_succ_self, if_true]
+      have := ih (key v :: seen)
+      simp only [List.length_cons] at this
+      rw [this]
+
+theorem memE_nil (E : ElemEq) (v : Int) : memE E [] v = false := rfl
+
+/-- for `int` elements `memE` is list membership and `firstOccE` is `firstOcc` -/
+theorem memE_int (m : List Int) (v : Int) : memE intEq m v = m.contains v := by
+  induction m with
+  | nil => rfl
+  | cons x xs ih => simp only [memE, intEq, List.any_cons, List.contains_cons] at ih ⊢; rw [ih]
+
+theorem firstOccE_int (key : Int → Int) (seen l : List Int) : firstOccE intEq key seen l = firstOcc key seen l := by
+  induction l generalizing seen with
+  | nil => rfl
+  | cons v vs ih => simp only [firstOccE, firstOcc, memE_int, ih]
+
 theorem set_mid (pre W post : List Int) (r : Nat) (v : Int) (hr : r < W.length) :
     (pre ++ W ++ post).set (pre.length + r) v = pre ++ W.set r v ++ post := by
   rw [List.append_assoc, List.set_append_right _ _ (by omega), List.set_append_left _ _ (by simpa using hr)]
@@ -110,9 +144,9 @@ theorem filterInPlaceA_spec (p : Int → Bool) (A : List Int) (s1 : Win) (h : s1
   rwa [selSpec_stateless] at this
 
 /-- `s2` is an arbitrary window — no hypothesis relates it to `s1` -/
-theorem diffInPlaceA_spec (A : List Int) (s1 s2 : Win) (h : s1.off + s1.len ≤ A.length) :
-    ∃ A' res, diffInPlaceA A s1 s2 = some (A', res) ∧
-      ArenaIpOk ((s1.read A).filter fun v => !(s2.read A).contains v) A s1 A' res := by
+theorem diffInPlaceA_spec (E : ElemEq) (A : List Int) (s1 s2 : Win) (h : s1.off + s1.len ≤ A.length) :
+    ∃ A' res, diffInPlaceA E A s1 s2 = some (A', res) ∧
+      ArenaIpOk ((s1.read A).filter fun v => !memE E (s2.read A) v) A s1 A' res := by
   unfold diffInPlaceA
   by_cases h0 : s1.len = 0 ∨ s2.len = 0
   · simp only [h0, if_true]
@@ -120,37 +154,37 @@ theorem diffInPlaceA_spec (A : List Int) (s1 s2 : Win) (h : s1.off + s1.len ≤ 
     rcases h0 with h0 | h0
     · simp [Win.read, h0]
     · rw [read_nil_of_len A s2 h0]
-      simp only [List.contains_nil, Bool.not_false]
+      simp only [memE_nil, Bool.not_false]
       exact (List.filter_eq_self.mpr (by simp)).symm
   · simp only [h0, if_false]
-    have := aipLoop_ok (statelessSel fun v => !(s2.read A).contains v) () A s1 h
+    have := aipLoop_ok (statelessSel fun v => !memE E (s2.read A) v) () A s1 h
     rwa [selSpec_stateless] at this
 
-theorem intersectInPlaceA_spec (A : List Int) (s1 s2 : Win) (h : s1.off + s1.len ≤ A.length) :
-    ∃ A' res, intersectInPlaceA A s1 s2 = some (A', res) ∧
-      ArenaIpOk ((s1.read A).filter fun v => (s2.read A).contains v) A s1 A' res := by
+theorem intersectInPlaceA_spec (E : ElemEq) (A : List Int) (s1 s2 : Win) (h : s1.off + s1.len ≤ A.length) :
+    ∃ A' res, intersectInPlaceA E A s1 s2 = some (A', res) ∧
+      ArenaIpOk ((s1.read A).filter fun v => memE E (s2.read A) v) A s1 A' res := by
   unfold intersectInPlaceA
   by_cases h0 : s1.len = 0 ∨ s2.len = 0
   · simp only [h0, if_true]
     refine ⟨A, _, rfl, arenaIpOk_refl A s1 0 _ ?_⟩
     rcases h0 with h0 | h0
     · simp [Win.read, h0]
-    · rw [read_nil_of_len A s2 h0]; simp
+    · rw [read_nil_of_len A s2 h0]; simp [memE_nil]
   · simp only [h0, if_false]
-    have := aipLoop_ok (statelessSel fun v => (s2.read A).contains v) () A s1 h
+    have := aipLoop_ok (statelessSel fun v => memE E (s2.read A) v) () A s1 h
     rwa [selSpec_stateless] at this
 
-theorem uniqueByKeyInPlaceA_spec (key : Int → Int) (A : List Int) (s1 : Win) (h : s1.off + s1.len ≤ A.length) :
-    ∃ A' res, uniqueByKeyInPlaceA key A s1 = some (A', res) ∧
-      ArenaIpOk (firstOcc key [] (s1.read A)) A s1 A' res := by
+theorem uniqueByKeyInPlaceA_spec (E : ElemEq) (key : Int → Int) (A : List Int) (s1 : Win) (h : s1.off + s1.len ≤ A.length) :
+    ∃ A' res, uniqueByKeyInPlaceA E key A s1 = some (A', res) ∧
+      ArenaIpOk (firstOccE E key [] (s1.read A)) A s1 A' res := by
   unfold uniqueByKeyInPlaceA
   by_cases h0 : s1.len = 0
   · simp only [h0, if_true]
     refine ⟨A, _, rfl, arenaIpOk_refl A s1 0 _ ?_⟩
-    simp [Win.read, h0, firstOcc]
+    simp [Win.read, h0, firstOccE]
   · simp only [h0, if_false]
-    have := aipLoop_ok (uniqueSel key) ([], 0) A s1 h
-    rwa [show (([] : List Int), 0) = (([] : List Int), ([] : List Int).length) from rfl, selSpec_unique] at this
+    have := aipLoop_ok (uniqueSelE E key) ([], 0) A s1 h
+    rwa [show (([] : List Int), 0) = (([] : List Int), ([] : List Int).length) from rfl, selSpec_uniqueE] at this
 
 /-- `Copy` on a source window with spare capacity: fresh result, the arena — including the spare
 capacity behind `len` — is not written. -/
@@ -162,5 +196,34 @@ theorem copyA_spec (A : List Int) (s : Win) (a len : Int) :
   cases copyRange (s.read A).length a len with
   | none => exact ⟨_, rfl, [], true, rfl⟩
   | some p => exact ⟨_, rfl, _, false, rfl⟩
+
+/-! ### Equal / Index with a possibly non-reflexive `==` -/
+
+theorem equalLoopE_spec (E : ElemEq) : ∀ (s1 s2 : List Int), s1.length = s2.length →
+    equalLoopE E s1 s2 = some ((s1.zip s2).all fun p => E.eq p.1 p.2)
+  | [], _, _ => by simp [equalLoopE]
+  | a :: as, [], h => by simp at h
+  | a :: as, b :: bs, h => by
+    have ih := equalLoopE_spec E as bs (by simpa using h)
+    simp only [equalLoopE, List.zip_cons_cons, List.all_cons]
+    cases E.eq a b <;> simp [ih]
+
+/-- `Equal` is the length test followed by the element-wise `==` — nothing else; in particular it
+does NOT depend on where the arguments live, and `Equal(s, s)` is true iff every element of `s`
+is `==` to itself. -/
+theorem equalE_spec (E : ElemEq) (s1 s2 : List Int) :
+    equalE E s1 s2 = some (decide (s1.length = s2.length) && (s1.zip s2).all fun p => E.eq p.1 p.2) := by
+  unfold equalE
+  by_cases h : s1.length = s2.length
+  · simp [h, equalLoopE_spec E s1 s2 h]
+  · simp [h]
+
+theorem equalE_self (E : ElemEq) (s : List Int) : equalE E s s = some (s.all fun x => E.eq x x) := by
+  rw [equalE_spec]
+  simp only [decide_true, Bool.true_and]
+  congr 1
+  induction s with
+  | nil => rfl
+  | cons a as ih => simp only [List.zip_cons_cons, List.all_cons, ih]
 
 end Golib.C14
